@@ -194,7 +194,7 @@ def rand_sched(rng, nthreads, length, style=None):
         return out[:length]
     # solo: one thread runs a long prefix, then the others
     t = rng.randrange(nthreads)
-    return [t] * rng.randint(1, length)
+    return [t] * rng.randint(1, max(1, length))
 
 
 def pull_op(rng, n_hint, allow_zero=False):
